@@ -139,14 +139,16 @@ type Judge func(c *Case, root *Root, q Request, res *Result, boardUnchanged bool
 // abort sweep (WithNodes(k) for every k in [0,K]) x stop signals x table sizes, on engines whose
 // tables carry over between the searches of one root.
 type Campaign struct {
-	R        *ev.Run
-	Stream   string
-	Roots    int // roots per class for the mixed requests
-	Sweeps   int // roots for the abort sweep
-	SweepK   int // K of the abort sweep
-	Judge    Judge
-	Params   []string
-	Searches atomic.Int64
+	R         *ev.Run
+	Stream    string
+	Roots     int // roots per class for the mixed requests
+	Sweeps    int // roots for the abort sweep
+	SweepK    int // K of the abort sweep
+	Deep      int // very deep searches (iteration depth 40..63) on bare endgames; very wide roots (100+ legal moves)
+	DeepNodes int // node cap of one deep search
+	Judge     Judge
+	Params    []string
+	Searches  atomic.Int64
 }
 
 var ttSizes = []int{32, 64, 32000, 1 << 20, 1 << 20, 16 << 20}
@@ -357,6 +359,30 @@ func (c *Campaign) Go() {
 		}
 		r.Merge(lcs[wk])
 	})
+	// the far ends of the search's own dimensions: iteration depths up to the ply limit with
+	// variations of 40-60 moves (only bare endgames get there within a node budget), and roots with
+	// more legal moves than any table indexed by the move count expects (several queens)
+	ev.Parallel(c.Deep, func(wk, i int) {
+		rng := r.RNG(c.Stream+"-deep", i)
+		root, kind, ok := deepRoot(rng, i)
+		if !ok {
+			return
+		}
+		tt := []int{1 << 20, 8 << 20, 16 << 20}[rng.IntN(3)]
+		s := search.New(tt)
+		cs := &Case{Kind: "deep", RootKind: kind, Start: root.Start.FEN(), TTBytes: tt, Params: c.Params}
+		q := Request{Depth: 40 + rng.IntN(24), Nodes: c.DeepNodes}
+		if kind == "wide" {
+			q = Request{Depth: 2 + rng.IntN(4), Nodes: c.DeepNodes / 10}
+		}
+		c.one(cs, &root, s, q, lcs[wk], wk)
+		lcs[wk].C["deep_or_wide_searches"]++
+		r.DistinctStr("deep" + root.Pos.Key())
+		if i%5 == 0 {
+			r.Sample(map[string]any{"kind": "deep", "root_kind": kind, "root": root.Pos.FEN(), "request": q})
+		}
+		r.Merge(lcs[wk])
+	})
 	// abort sweep: every k in [0,K] is one possible arrival time of stop / hard timeout
 	ev.Parallel(c.Sweeps, func(wk, i int) {
 		rng := r.RNG(c.Stream+"-sweep", i)
@@ -486,4 +512,76 @@ func Replay(c *Case, judge Judge) {
 			judge(&cc, &root, q, &res, after.Equal(before), fmt.Sprintf("before %s\nafter  %s", short(before), short(after)))
 		}
 	}
+}
+
+// deepRoot builds a root for the deep/wide workload: K+P v K, K+P v K+P with rammed or passed
+// pawns, K+R v K ("bare": the search reaches depth 40-60 in a few million nodes), or a position
+// with five to nine queens of the side to move and 100+ legal moves ("wide").
+func deepRoot(rng *rand.Rand, i int) (Root, string, bool) {
+	for try := 0; try < 400; try++ {
+		var p ref.Pos
+		p.EP = -1
+		p.Full = 1 + rng.IntN(80)
+		p.Half = rng.IntN(20)
+		p.White = rng.IntN(2) == 0
+		put := func(v int8) bool {
+			for k := 0; k < 50; k++ {
+				sq := rng.IntN(64)
+				if (v == ref.P || v == -ref.P) && (sq < 8 || sq >= 56) {
+					continue
+				}
+				if p.Sq[sq] == 0 {
+					p.Sq[sq] = v
+					return true
+				}
+			}
+			return false
+		}
+		put(ref.K)
+		put(-ref.K)
+		kind := "bare"
+		if i%4 == 3 {
+			kind = "wide"
+			sg := int8(1)
+			if !p.White {
+				sg = -1
+			}
+			for n := 5 + rng.IntN(5); n > 0; n-- {
+				put(sg * ref.Q)
+			}
+			for n := rng.IntN(3); n > 0; n-- {
+				put(sg * int8(2+rng.IntN(3)))
+			}
+			for n := rng.IntN(4); n > 0; n-- {
+				put(-sg * int8(1+rng.IntN(4)))
+			}
+		} else {
+			switch rng.IntN(4) {
+			case 0:
+				put(ref.P)
+			case 1:
+				put(ref.P)
+				put(-ref.P)
+			case 2:
+				put([]int8{ref.R, -ref.R}[rng.IntN(2)])
+			default:
+				put(ref.P)
+				put(ref.P)
+				put(-ref.P)
+			}
+		}
+		if !p.Valid() {
+			continue
+		}
+		n := len(p.Legal())
+		if n == 0 || (kind == "wide" && n < 102) {
+			continue
+		}
+		root := NewRoot(p.Normalised(), nil)
+		if root.Final() {
+			continue
+		}
+		return root, kind, true
+	}
+	return Root{}, "", false
 }
